@@ -29,63 +29,70 @@ var properties = map[string]Prop{
 		Parts:       []Part{{Harness: "c07"}},
 		Level:       "model_checking",
 		QuickBudget: 150, ThoroughBudget: 1500,
-		Rule: "all strings over {Start, Stop, Stop(0), cancel} up to length 3 (4 thorough) on three actor trees, explored over message-level schedules incl. the Stop(0)-timer race; plus pairs of such strings on two threads explored at sync/atomic granularity up to the preemption bound; oracle: linearizable w.r.t. the ready->started->stopped machine, every call returns, clean stop leaves no registered actor and no thread; distinct_nontrivial = distinct result vectors per scenario",
+		Rule:        "all strings over {Start, Stop, Stop(0), cancel} up to length 3 (4 thorough) on three actor trees, explored over message-level schedules incl. the Stop(0)-timer race; plus pairs of such strings on two threads explored at sync/atomic granularity up to the preemption bound; oracle: linearizable w.r.t. the ready->started->stopped machine, every call returns, clean stop leaves no registered actor and no thread; distinct_nontrivial = distinct result vectors per scenario",
 		Assumptions: schedAssumptions,
 	},
 	"C08": {
 		Parts:       []Part{{Harness: "sup", Args: []string{"-prop", "C08"}}},
 		Level:       "model_checking",
 		QuickBudget: 150, ThoroughBudget: 1500,
-		Rule: "delay-bounded DFS over message-level schedules of the real actor.System for the matrix failure-site{OnLaunch,user message,child OnKilled,scheduled message,OnKill} x cause{panic,Failed} x decision(6) x {one-for-one,one-for-all} + escalation chains to the system default + burst positions + repeated failures + failing hooks; oracle = reference supervision model (who is restarted/stopped/resumed/untouched, who is consulted); distinct_nontrivial = distinct per-actor trace summaries per scenario",
+		Rule:        "delay-bounded DFS over message-level schedules of the real actor.System for the matrix failure-site{OnLaunch,user message,child OnKilled,scheduled message,OnKill} x cause{panic,Failed} x decision(6) x {one-for-one,one-for-all} + escalation chains to the system default + burst positions + repeated failures + failing hooks; oracle = reference supervision model (who is restarted/stopped/resumed/untouched, who is consulted); distinct_nontrivial = distinct per-actor trace summaries per scenario",
 		Assumptions: append([]string{coarseAssumption}, schedAssumptions...),
 	},
 	"C09": {
 		Parts:       []Part{{Harness: "sup", Args: []string{"-prop", "C09"}}},
 		Level:       "model_checking",
 		QuickBudget: 150, ThoroughBudget: 1500,
-		Rule: "same scenario matrix as C08; oracle = at quiescence no survivor paused / half-stopped / holding mail, queued burst delivered in order to the right incarnation, every survivor processes a probe sent after quiescence, zombies inert + releasable, System.Stop still terminates everything, no spin, no stuck thread; distinct_nontrivial = distinct per-actor trace summaries per scenario",
+		Rule:        "same scenario matrix as C08; oracle = at quiescence no survivor paused / half-stopped / holding mail, queued burst delivered in order to the right incarnation, every survivor processes a probe sent after quiescence, zombies inert + releasable, System.Stop still terminates everything, no spin, no stuck thread; distinct_nontrivial = distinct per-actor trace summaries per scenario",
 		Assumptions: append([]string{coarseAssumption}, schedAssumptions...),
 	},
 	"C06": {
 		Parts:       []Part{{Harness: "c06"}},
 		Level:       "model_checking",
 		QuickBudget: 200, ThoroughBudget: 1800,
-		Rule: "delay-bounded DFS over schedules (switches between messages and at every mailbox Enqueue) of the real actor.System for tree shape{single,chain3,fan,mixed} x kill target(every node) x {immediate,poison} x second kill{same,ancestor,descendant} x watcher{early,twice,late,unwatched} x spawn racing the kill{in OnKill handler, same-name respawn in the parent's OnKilled handler, outsider ActorOf} x owned subscription+Loop job; oracle = children-first / exactly-once termination notices, path release, name reuse, subscription and job release; distinct_nontrivial = distinct (termination order, per-actor traces) per scenario",
+		Rule:        "delay-bounded DFS over schedules (switches between messages and at every mailbox Enqueue) of the real actor.System for tree shape{single,chain3,fan,mixed} x kill target(every node) x {immediate,poison} x second kill{same,ancestor,descendant} x watcher{early,twice,late,unwatched} x spawn racing the kill{in OnKill handler, same-name respawn in the parent's OnKilled handler, outsider ActorOf} x owned subscription+Loop job; oracle = children-first / exactly-once termination notices, path release, name reuse, subscription and job release; distinct_nontrivial = distinct (termination order, per-actor traces) per scenario",
 		Assumptions: append([]string{coarseAssumption}, schedAssumptions...),
 	},
 	"C03": {
 		Parts:       []Part{{Harness: "c03"}},
 		Level:       "model_checking",
 		QuickBudget: 200, ThoroughBudget: 1800,
-		Rule: "delay-bounded DFS over send/receive-level schedules of the real actor.System for target state{running, being killed (immediate/poison/slow subtree), failed+Stop/GracefulStop/Restart/GracefulRestart/Resume, terminated, terminated+name reused, never existed, zombie, system stopped, stashing} x reference provenance{ActorOf warm/cold cache, Clone, ParseRef, FindActor} x sender{outside goroutine, sibling actor}, three numbered messages racing the transition; oracle = conservation (processed xor stashed xor dead-lettered exactly once, by the addressee only, no mailbox holding mail at quiescence); distinct_nontrivial = distinct fate vectors per scenario",
+		Rule:        "delay-bounded DFS over send/receive-level schedules of the real actor.System for target state{running, being killed (immediate/poison/slow subtree), failed+Stop/GracefulStop/Restart/GracefulRestart/Resume, terminated, terminated+name reused, never existed, zombie, system stopped, stashing} x reference provenance{ActorOf warm/cold cache, Clone, ParseRef, FindActor} x sender{outside goroutine, sibling actor}, three numbered messages racing the transition; oracle = conservation (processed xor stashed xor dead-lettered exactly once, by the addressee only, no mailbox holding mail at quiescence); distinct_nontrivial = distinct fate vectors per scenario",
 		Assumptions: append([]string{coarseAssumption}, schedAssumptions...),
 	},
 	"C16": {
 		Parts:       []Part{{Harness: "c16"}},
 		Level:       "exploration",
 		QuickBudget: 120, ThoroughBudget: 1200,
-		Rule: "all version vectors over ids {a,b,c} with per-id entry in {absent, explicit 0, 1, 2, Max} (quick; + Max-1 thorough) plus the zero-value struct: every pair (Compare vs pointwise reference, converse, Merge = pointwise max, commutative, idempotent, upper bound, operands unchanged), every single (Increment strictly After / overflow error, Clone isolation, Write/Read round trip consuming all bytes), every triple (transitivity, Equal is a congruence, Merge associative and least upper bound), and all operation sequences of depth 3 (4) over {Increment, Merge, Clone, Compact, Prune} from non-initial states against a dense reference model; a case is non-trivial when the operands differ / the sequence has at least one operation",
+		Rule:        "all version vectors over ids {a,b,c} with per-id entry in {absent, explicit 0, 1, 2, Max} (quick; + Max-1 thorough) plus the zero-value struct: every pair (Compare vs pointwise reference, converse, Merge = pointwise max, commutative, idempotent, upper bound, operands unchanged), every single (Increment strictly After / overflow error, Clone isolation, Write/Read round trip consuming all bytes), every triple (transitivity, Equal is a congruence, Merge associative and least upper bound), and all operation sequences of depth 3 (4) over {Increment, Merge, Clone, Compact, Prune} from non-initial states against a dense reference model; a case is non-trivial when the operands differ / the sequence has at least one operation",
 		Assumptions: []string{"node ids are drawn from {a,b,c}; counters from the stated alphabet: laws about other ids/values are not covered", "the reference model is the dense function id -> counter with absent == 0"},
 	},
 	"C17": {
 		Parts:       []Part{{Harness: "c17"}},
 		Level:       "exploration",
 		QuickBudget: 150, ThoroughBudget: 1500,
-		Rule: "grid family: all views over ids {n1,n2} with member incarnation in generation{1,2} x logical clock{1,2,3} (n1 additionally x 2 (quick) / 4 (thorough) status+timestamp variants) or absent, x epoch{0,2} x view timestamp{now, now-10s} x version vector{{}, {n1:1}, {n2:1}}; every ordered pair under each of the 9 merge options (3 concurrent-version strategies x clock skew{off, 1s, 1h}), triples of an evenly spaced subset of about 110 views under each strategy; reachable family: views generated breadth-first by the real join / re-join (generation bump) / status change / version increment / removal / snapshot / merge operations with a ticking virtual clock (depth 3 quick, 5 thorough; capped, cap reported), all pairs x 9 options + triples of a subset. A case is one merge law evaluation on one pair/triple; pairs of different views are the non-trivial ones",
+		Rule:        "grid family: all views over ids {n1,n2} with member incarnation in generation{1,2} x logical clock{1,2,3} (n1 additionally x 2 (quick) / 4 (thorough) status+timestamp variants) or absent, x epoch{0,2} x view timestamp{now, now-10s} x version vector{{}, {n1:1}, {n2:1}}; every ordered pair under each of the 9 merge options (3 concurrent-version strategies x clock skew{off, 1s, 1h}), triples of an evenly spaced subset of about 110 views under each strategy; reachable family: views generated breadth-first by the real join / re-join (generation bump) / status change / version increment / removal / snapshot / merge operations with a ticking virtual clock (depth 3 quick, 5 thorough; capped, cap reported), all pairs x 9 options + triples of a subset. A case is one merge law evaluation on one pair/triple; pairs of different views are the non-trivial ones",
 		Assumptions: []string{"logical clocks are >= 1 (LogicalClock == 0 only arises from foreign wire input and is outside the property's quantifier)", "time.Now is the virtual clock of the instrumented build", "the grid over-approximates the reachable incarnations (generation and logical clock vary independently)"},
 	},
 	"C02": {
 		Parts:       []Part{{Harness: "c02ring"}, {Harness: "c02mb"}, {Harness: "c02ctx"}},
 		Level:       "model_checking",
 		QuickBudget: 200, ThoroughBudget: 1800,
-		Rule: "(a) every sequence over {Push, Pop, PopMany(0,1,2,5)} up to length 8 (10) on ring buffers of initial size 1-4 plus directed growth runs at sizes 5/8/256 with the head at every offset, against a slice; (b) every interleaving up to the preemption bound of 2-3 concurrent senders of numbered user/system series into the real mailbox (ring size 1/2/4): per-sender FIFO, real-time FIFO per queue, system-before-user; (c) every message-level schedule of all Stash/Unstash(n) scripts up to length 5 (6) and of kill-vs-backlog scenarios on the real Context against a list model; distinct_nontrivial = operation sequences + distinct handling orders per scenario",
+		Rule:        "(a) every sequence over {Push, Pop, PopMany(0,1,2,5)} up to length 8 (10) on ring buffers of initial size 1-4 plus directed growth runs at sizes 5/8/256 with the head at every offset, against a slice; (b) every interleaving up to the preemption bound of 2-3 concurrent senders of numbered user/system series into the real mailbox (ring size 1/2/4): per-sender FIFO, real-time FIFO per queue, system-before-user; (c) every message-level schedule of all Stash/Unstash(n) scripts up to length 5 (6) and of kill-vs-backlog scenarios on the real Context against a list model; distinct_nontrivial = operation sequences + distinct handling orders per scenario",
+		Assumptions: schedAssumptions,
+	},
+	"C04": {
+		Parts:       []Part{{Harness: "c04fut"}, {Harness: "c04ask"}},
+		Level:       "model_checking",
+		QuickBudget: 200, ThoroughBudget: 1800,
+		Rule: "(a) the real future.Future alone: every interleaving, at sync/atomic AND plain field-access granularity, of 2-3 threads drawn from {reply r1, reply r2, Close(actor-dead), Close(nil), PipeTo(f1), PipeTo(f1,f2), PipeTo(f2), Result, Wait} with and without a 1 s timeout (timer deviations), up to the preemption bound, with the happens-before race detector on; (b) Ask through the real actor.System: 1-2 askers x 1-2 asks x replier{once, twice, never, slow} x timeout{1 ns, 1 s, default} x {asker killed, asker killed and re-spawned under the same name before the late reply}, every schedule up to the delay bound with switch points at messages, sends, timer operations and mailbox elections plus timer deviations; distinct_nontrivial = distinct (final result, forwarder log) / result vectors per scenario",
 		Assumptions: schedAssumptions,
 	},
 	"C05": {
 		Parts:       []Part{{Harness: "c05"}},
 		Level:       "model_checking",
 		QuickBudget: 150, ThoroughBudget: 1500,
-		Rule: "delay-bounded DFS over message-level schedules of the real actor.System for each scenario of the matrix failure-site x cause x decision x provider (+Become, kills, prelaunch failures, repeated restarts, failing hooks); oracle = per-incarnation trace grammar over everything behaviours saw; distinct_nontrivial = distinct per-actor trace summaries per scenario",
+		Rule:        "delay-bounded DFS over message-level schedules of the real actor.System for each scenario of the matrix failure-site x cause x decision x provider (+Become, kills, prelaunch failures, repeated restarts, failing hooks); oracle = per-incarnation trace grammar over everything behaviours saw; distinct_nontrivial = distinct per-actor trace summaries per scenario",
 		Assumptions: append([]string{coarseAssumption}, schedAssumptions...),
 	},
 	"C01": {
